@@ -309,3 +309,133 @@ def _state_builtins(repo):
     lean = ("def c05StateBuiltins : List String := " + _lean_list(names) + "\n"
             "def c05HarnessBuiltins : List String := " + _lean_list(covered))
     return {"source": names, "harness": covered}, lean
+
+
+RECURSION_VARS = ("loop_recursion_bases", "next_loop_recursion_jump", "recursion_jump", "current_recursion_jump", r"stack\.truncate")
+
+
+def _stmt_and_guards(text, pos):
+    """the statement (or block header) around offset pos, and the `if` headers of the blocks that
+    are open there, outermost first — whitespace collapsed"""
+    norm = lambda t: re.sub(r"\s+", " ", t).strip()
+    # statement: back to the previous ; { } and forward to the next ; or {
+    a = max(text.rfind(c, 0, pos) for c in ";{}") + 1
+    ends = [e for e in (text.find(c, pos) for c in ";{") if e >= 0]
+    b = min(ends) if ends else len(text)
+    stmt = norm(text[a:b])
+    guards, stack = [], []
+    for i, ch in enumerate(text[:pos]):
+        if ch == "{":
+            s0 = max(text.rfind(c, 0, i) for c in ";{}") + 1
+            stack.append(norm(text[s0:i]))
+        elif ch == "}":
+            if stack:
+                stack.pop()
+    for h in stack:
+        if h.startswith("if ") or h.startswith("} else") or h.startswith("else"):
+            guards.append(h)
+    return stmt, guards
+
+
+@item("C05_RECURSION_BASES")
+def _recursion_bases(repo):
+    """every statement of `eval_impl` (by instruction arm; `recurse_loop!` and the prologue by name)
+    and of `push_loop` that mentions the bookkeeping of loop recursion — `loop_recursion_bases`,
+    `next_loop_recursion_jump`, `recursion_jump`, `current_recursion_jump` — with the `if` conditions it
+    is under: (where, statement, guards)"""
+    src = _strip_comments(read(repo, VM))
+    body = fn_body(src, r"fn eval_impl\s*\(")
+    m = re.search(r"\bmatch instr\s*\{", body)
+    if not m:
+        raise KeyError("eval_impl: match instr")
+    regions = []
+    pro = body[:m.start()]
+    mm = re.search(r"macro_rules! recurse_loop\s*\{", pro)
+    if not mm:
+        raise KeyError("eval_impl: recurse_loop!")
+    mac = fn_body(pro, r"macro_rules! recurse_loop\s*\{")
+    regions.append(("prologue", pro[:mm.start()]))
+    regions.append(("recurse_loop!", mac))
+    disp = body[m.end():]
+    heads = list(re.finditer(r"^\s{16}Instruction::(\w+)(?:\([^)]*\))?\s*=>", disp, re.M))
+    for i, h in enumerate(heads):
+        end = heads[i + 1].start() if i + 1 < len(heads) else len(disp)
+        text = disp[h.end():end].split("\n            }\n            pc += 1;")[0]
+        regions.append((h.group(1), text))
+    regions.append(("push_loop", fn_body(src, r"fn push_loop\s*\(")))
+    rows = []
+    for where, text in regions:
+        seen = set()
+        for mt in re.finditer(r"\b(%s)\b" % "|".join(RECURSION_VARS), text):
+            if "verif" in text[max(0, text.rfind("\n", 0, mt.start())):text.find("\n", mt.start())]:
+                continue
+            stmt, guards = _stmt_and_guards(text, mt.start())
+            if len(stmt) > 100:
+                # a long statement: only the call the variable is an argument of
+                depth, j = 0, mt.start()
+                while j > 0:
+                    j -= 1
+                    if text[j] == ")":
+                        depth += 1
+                    elif text[j] == "(":
+                        if depth == 0:
+                            break
+                        depth -= 1
+                callee = re.search(r"([\w:!]+)\s*$", text[:j])
+                stmt = f"{callee.group(1) if callee else '?'}(.., {mt.group(1)}, ..)"
+            key = (stmt, tuple(guards))
+            if key in seen:
+                continue
+            seen.add(key)
+            rows.append((where, stmt, guards))
+    if not any("loop_recursion_bases.push" in r[1] for r in rows) or not any("loop_recursion_bases.pop" in r[1] for r in rows):
+        raise KeyError("eval_impl: loop_recursion_bases push / pop sites")
+    lean = ("def c05RecursionBases : List (String × String × List String) := [\n  "
+            + ",\n  ".join(f"({lean_str(w)}, {lean_str(s)}, {_lean_list(g)})" for w, s, g in rows) + "]")
+    return rows, lean
+
+
+@item("C05_BACKPATCH_SITES")
+def _backpatch_sites(repo):
+    """the primitives of the `pending_block` back-patching in codegen.rs, each as the sequence of its
+    landmarks in textual order: instructions added, pending blocks pushed / popped, which instruction
+    variants get a target written, registration of a `break` jump with the innermost loop"""
+    src = _strip_comments(read(repo, CODEGEN))
+    rx = re.compile(
+        r"self\.add(?:_with_span)?\(\s*Instruction::(\w+)"            # 1 add
+        r"|self\.pending_block\.push\(\s*PendingBlock::(\w+)"          # 2 push
+        r"|self\.pending_block\.(pop)\(\)"                             # 3 pop
+        r"|self\.(end_condition)\("                                    # 4
+        r"|&mut Instruction::(\w+)\(ref mut"                           # 5 variant that is written
+        r"|\*(?:jump_)?target\s*=\s*([\w.() +]+);"                     # 6 what is written
+        r"|jump_instrs\.(push)\(instr\)"                               # 7 register
+        r"|self\.(leave_scopes_of_innermost_loop)\(\)"                 # 8
+        r"|PendingBlock::Loop\s*\{\s*(iter_instr),\s*\.\.\s*\}")       # 9 continue reads iter_instr
+    def marks(text):
+        out = []
+        for m in rx.finditer(text):
+            if m.group(1): out.append("add:" + m.group(1))
+            elif m.group(2): out.append("push:" + m.group(2))
+            elif m.group(3): out.append("pop")
+            elif m.group(4): out.append("end_condition")
+            elif m.group(5): out.append("writes:" + m.group(5))
+            elif m.group(6): out.append("target=" + re.sub(r"\s+", "", m.group(6)))
+            elif m.group(7): out.append("register")
+            elif m.group(8): out.append("leave")
+            elif m.group(9): out.append("reads:iter_instr")
+        return out
+    rows = []
+    for fn in ("start_if", "start_else", "end_if", "end_condition", "start_for_loop", "end_for_loop",
+               "start_scope", "end_scope"):
+        rows.append((fn, marks(fn_body(src, r"fn %s\s*\(" % fn))))
+    mac = fn_body(src, r"fn compile_macro_expression\s*\(")
+    rows.append(("compile_macro_expression", [x for x in marks(mac) if x.split(":")[-1] in ("Jump", "Return", "BuildMacro") or x.startswith("target=")]))
+    body = fn_body(src, r"pub fn compile_stmt\s*\(")
+    for arm in ("Continue", "Break"):
+        m = re.search(r"ast::Stmt::%s\(\w+\)\s*=>\s*\{" % arm, body)
+        if not m:
+            raise KeyError("compile_stmt: " + arm)
+        rows.append((arm, marks(fn_body(body[m.start():], r"=>\s*\{"))))
+    lean = ("def c05BackpatchSites : List (String × List String) := [\n  "
+            + ",\n  ".join(f"({lean_str(n)}, {_lean_list(s)})" for n, s in rows) + "]")
+    return rows, lean
